@@ -5,7 +5,7 @@
    below 2^32 bytes.  Runtime behaviour the model cannot exhibit: the typed API recurses on the
    cause chain (remap, Display, Drop) and exhausts the stack for chains of about 2*10^4 causes
    (known finding F8, probed by the check in a subprocess). *)
-From PG Require Import Base Mapping Spec Mapper CacheWriter SafetyProofs.
+From PG Require Import Base Mapping Spec Mapper CacheWriter CacheReader CacheStructDefs SafetyProofs PipelineTotal.
 
 Theorem C13_mapper_never_panics : forall ix (b : list N) c m line file,
   exists fs, m_remap_frame_lines (build ix (recs b)) c m line file = Ok fs.
@@ -20,3 +20,15 @@ Theorem C13_writer_counts_exact : forall b, lenN b < U32 ->
   let s := write_struct (recs b) in
   cs_num_members s = lenN (cs_members s) /\ cs_num_byparams s = lenN (cs_byparams s).
 Proof. exact write_bytes_counts_exact. Qed.
+
+(* the whole pipeline, for EVERY byte string below 2 GiB (no domain restriction: empty names,
+   numbers up to 2^64-1, invalid UTF-8 lines, duplicates): the mapper answers without panic, the
+   written structure is well-formed and the written bytes parse back to exactly it *)
+Theorem C13_pipeline_total : forall b : list N, lenN b < 2147483648 ->
+  (forall ix cls m line file, exists fs, m_remap_frame_lines (build ix (recs b)) cls m line file = Ok fs) /\
+  struct_wf (write_struct (recs b)) = true /\
+  parse (write_bytes b) = POk (cache_of_struct (write_struct (recs b))).
+Proof.
+  intros b Hl. split; [|exact (write_parse_total_any b Hl)].
+  intros ix cls m line file. apply C13_mapper_total.
+Qed.
